@@ -109,6 +109,7 @@ COMP = ch.IOComponent(
     gen_arg=lambda cfg, m, rng, tr: rng.randrange(1, 1 << cfg["w"]),
     gen_in=gen_in, tracker=Tracker, post=post, module=__name__, has_ghost=True,
     in_phase=lambda cfg, rng: {"p": rng.choice([0.0, 0.2, 0.5, 0.8, 1.0]), "conform": rng.random() < 0.5},
+    shadow=lambda cfg: [m for m in methods(cfg) if m in ("read", "write")],   # peek is documented nonexclusive
 )
 
 
